@@ -716,7 +716,7 @@ func (c *FnCtx) havoc(st *State, objs []types.Object) {
 	}
 }
 
-// havocIn havocs the variables a loop body may modify; a pointer that the body only writes through
+// havocIn havocs the variables a loop body may modify; a pointer or map that the body only writes through
 // (never assigns) keeps its nil-ness.
 func (c *FnCtx) havocIn(st *State, objs []types.Object, body ast.Node) {
 	direct := map[types.Object]bool{}
@@ -756,7 +756,8 @@ func (c *FnCtx) havocIn(st *State, objs []types.Object, body ast.Node) {
 	var keeps []keep
 	for _, o := range objs {
 		if old, ok := st.vars[o]; ok && !direct[o] {
-			if si := c.eng.Sorts.Info(old.Sort); si != nil && si.Kind == KPtr {
+			// a pointer or a map that the body only writes through (p.f = v, m[k] = v), never assigns, keeps its nil-ness
+			if si := c.eng.Sorts.Info(old.Sort); si != nil && (si.Kind == KPtr || si.Kind == KMap) {
 				keeps = append(keeps, keep{o, old})
 			}
 		}
